@@ -428,6 +428,44 @@ func (c *Ctx) forwardsExec(fd *ast.FuncDecl, depth int, seen map[*ast.FuncDecl]b
 		}
 		return true
 	})
+	// a helper that is handed the outcome of the parse step (prog, err): its error parameter is the parse error as
+	// long as nothing else is ever assigned to it
+	if depth > 0 && fd.Type.Params != nil {
+		hasProg := false
+		var errParams []types.Object
+		for _, f := range fd.Type.Params.List {
+			for _, nm := range f.Names {
+				o := c.objOf(nm)
+				if o == nil {
+					continue
+				}
+				if isNamed(o.Type(), bclPath, "Prog") {
+					hasProg = true
+				}
+				if isErrorType(o.Type()) {
+					errParams = append(errParams, o)
+				}
+			}
+		}
+		if hasProg {
+			for _, o := range errParams {
+				assigned := false
+				ast.Inspect(fd.Body, func(x ast.Node) bool {
+					if as, ok := x.(*ast.AssignStmt); ok {
+						for _, l := range as.Lhs {
+							if c.isObj(l, o) {
+								assigned = true
+							}
+						}
+					}
+					return true
+				})
+				if !assigned {
+					parseErr[o] = true
+				}
+			}
+		}
+	}
 	n := 0
 	okAll, why := true, ""
 	ast.Inspect(fd.Body, func(x ast.Node) bool {
@@ -565,30 +603,37 @@ func ruleBlockKey(c *Ctx, r *Report, rule string) {
 		ok := got[`"TYPE"`] == "<vm>.blockStack[blockTos-1].Type" && got[`"NAME"`] == "<vm>.blockStack[blockTos-1].Name" && first
 		r.check(ok, rule, "pseudo-fields", "TYPE/NAME read blockStack[blockTos-1], before any field lookup", fmt.Sprintf("TYPE and NAME must read the innermost block's Type and Name before any field of that spelling is looked up (found %v, pseudo-fields first: %v)", got, first), "")
 	}
-	// block name: unquoted string literal
-	if _, fd := c.find("blockStmt"); fd == nil {
-		r.bad(rule, "blockStmt", "function not found", "")
+	// block name: the unquoted string literal when there is one, the empty string otherwise (read off the emission model)
+	if em, err := c.emitModel(); err != nil {
+		r.bad(rule, "block-name", err.Error(), "")
 	} else {
-		var nameObj types.Object
-		unq := false
-		ast.Inspect(fd.Body, func(n ast.Node) bool {
-			as, ok := n.(*ast.AssignStmt)
-			if !ok || len(as.Rhs) != 1 {
-				return true
-			}
-			if call, ok := as.Rhs[0].(*ast.CallExpr); ok && c.calleeName(call) == "strconv.Unquote" && c.fieldPath(call.Args[0]) == "<parser>.prev.val" {
-				unq = true
-				nameObj = c.objOf(as.Lhs[0])
-			}
-			return true
-		})
-		used := false
-		for _, cs := range c.callsOf(fd) {
-			if cs.Name == "parser.makeConst" && len(cs.Call.Args) == 1 && c.isObj(cs.Call.Args[0], nameObj) {
-				used = true
+		named, unnamed, bad := 0, 0, ""
+		pos := ""
+		for _, k := range em.order {
+			for _, o := range em.Entries[k].Outcomes {
+				hasStr := false
+				for _, ev := range o.Events {
+					if ev == "match:tSTR" {
+						hasStr = true
+					}
+				}
+				for _, op := range o.Operands {
+					if op.Op != "opDEFBLOCK" || op.Index != 1 {
+						continue
+					}
+					pos = c.pos(op.Pos)
+					switch {
+					case hasStr && op.Src == "unquote(token)":
+						named++
+					case !hasStr && op.Src == `const:""`:
+						unnamed++
+					default:
+						bad = fmt.Sprintf("on a path with events %v the name constant is made from %q", o.Events, op.Src)
+					}
+				}
 			}
 		}
-		r.check(unq && used, rule, "block-name", "name constant = strconv.Unquote(token text)", "the block name constant must be the unquoted text of the string token", c.pos(fd.Pos()))
+		r.check(bad == "" && named > 0 && unnamed > 0, rule, "block-name", "name constant = strconv.Unquote(text of the string token), \"\" when the block has no name", "the block name constant must be the unquoted text of the string token (and empty without one): "+bad, pos)
 	}
 }
 
